@@ -38,7 +38,7 @@ RULE = (
 LEVEL_TEXT = ("all loader states reachable by the operation alphabet from the initial constructions are enumerated to closure; "
               "each transition is validated against the reference model and each state's per-row results against single-molecule references")
 ASSUMPTIONS = [
-    "universe: 5 molecules (thorough 6) in 2 (thorough 3) tomograms of (20,21,22); integer positions, identity orientations (orientation handling is C02/C01)",
+    "universe: 5 molecules (thorough 6) in 2 (thorough 3) tomograms of (20,21,22); integer positions; molecule uid has its own cube-rotation orientation (one per axis-permutation class) so that per-molecule keyword arguments (quaternion, position) of tilt-model tasks are observable; align/score/landscape/classify observers run with a (-60,60) single-axis tilt model",
     "state merging on (kind, uid tuple) is sound because every molecule attribute is a function of uid (DESIGN.md E2)",
     "sample() is specified as a relation: any subset of the requested size; sort ties in any order",
     "per-uid reference values come from single-molecule loaders of the library itself (a one-row loader cannot mis-order rows)",
@@ -49,6 +49,24 @@ POS = [(5, 5, 5), (5, 14, 8), (13, 6, 15), (14, 15, 6), (9, 10, 16), (15, 9, 11)
 DISP = [(1, 0, 0), (0, 1, 0), (0, 0, 1), (-1, 0, 0), (0, -1, 0), (0, 0, -1)]
 KEY = [3, 1, 4, 0, 2, 5]
 KEY2 = [1, 0, 1, 0, 2, 2]
+TILT = (-60.0, 60.0)
+
+
+def _orientations():
+    """one cube rotation per uid, one from each of the six axis-permutation classes: the images of the beam axis and of the
+    tilt axis differ (as unsigned axes) between any two uids, so every uid has its own missing-wedge mask in its own frame"""
+    out = []
+    for perm in itertools.permutations(range(3)):
+        m = np.zeros((3, 3))
+        for r, c in enumerate(perm):
+            m[r, c] = 1.0
+        if np.linalg.det(m) < 0:
+            m[2] *= -1
+        out.append(m)
+    return out
+
+
+ORI = _orientations()
 
 
 def _n(tier):
@@ -86,13 +104,15 @@ def template():
 def molecules(uids):
     import polars as pl
 
+    from scipy.spatial.transform import Rotation
+
     from acryo import Molecules
 
     uids = list(uids)
     pos = np.array([POS[u] for u in uids], dtype=np.float32).reshape(-1, 3)
     feats = pl.DataFrame({"uid": pl.Series(uids, dtype=pl.Int64), "g": pl.Series([u % 2 for u in uids], dtype=pl.Int64),
                           "k": pl.Series([KEY[u] for u in uids], dtype=pl.Int64), "k2": pl.Series([KEY2[u] for u in uids], dtype=pl.Int64)})
-    return Molecules(pos, features=feats)
+    return Molecules(pos, Rotation.from_matrix(np.stack([ORI[u] for u in uids])) if uids else None, features=feats)
 
 
 _TOMO_CACHE = {}
@@ -292,10 +312,15 @@ def refs(nmol, ntomo):
     out = {}
     for u in range(nmol):
         ld = SubtomogramLoader(TB[tomo_of(u, ntomo)], molecules([u]), order=1, scale=1.0, output_shape=(5, 5, 5))
-        sc = float(ld.score([tm])[0][0])
-        al = ld.align(tm, max_shifts=1.2).molecules.features
+        sc = float(ld.score([tm], tilt=TILT)[0][0])
+        alm = ld.align(tm, max_shifts=1.2, tilt=TILT).molecules
+        al = alm.features
         sh = (float(al["align-dz"][0]), float(al["align-dy"][0]), float(al["align-dx"][0]))
-        out[u] = {"score": sc, "shift": sh}
+        l = np.asarray(ld.construct_landscape(tm, max_shifts=1.0, tilt=TILT).compute())[0]
+        # the planted displacement seen in the molecule's own frame (the library's rotator acts on (z, y, x) vectors)
+        local = tuple(int(round(float(v))) for v in np.atleast_2d(alm.rotator.inv().apply(np.asarray(DISP[u], dtype=np.float64)))[0])
+        out[u] = {"score": sc, "shift": sh, "newpos": alm.pos[0].astype(np.float64), "landscape": l, "score_al": float(al["score"][0]),
+                  "lmax": tuple(int(v) - 1 for v in np.unravel_index(int(np.argmax(l)), l.shape)), "local_disp": local}
     _REF[key] = out
     return out
 
@@ -373,10 +398,10 @@ def run_case(case):
     tm = template()
     LB = apply_history(init, hist, "B", nmol, ntomo).replace(order=1, output_shape=(5, 5, 5))
     LB = LB.replace(molecules=LB.molecules.subset([list(loader_uids(LB)).index(u) for u in uids])) if loader_uids(LB) != uids else LB
-    sc = np.asarray(LB.score([tm])[0], dtype=np.float64)
+    sc = np.asarray(LB.score([tm], tilt=TILT)[0], dtype=np.float64)
     if len(sc) != N or np.abs(sc - np.array([R[u]["score"] for u in uids])).max() > 1e-5:
         bad("score", "row-mismatch", f"scores {np.round(sc, 4).tolist()} != per-molecule references {[round(R[u]['score'], 4) for u in uids]}")
-    al = LB.align(tm, max_shifts=1.2)
+    al = LB.align(tm, max_shifts=1.2, tilt=TILT)
     if loader_uids(al) != uids:
         bad("align", "uid-order", f"aligned loader holds {loader_uids(al)}")
     else:
@@ -385,17 +410,23 @@ def run_case(case):
         if any(np.abs(np.array(sh[i]) - np.array(R[u]["shift"])).max() > 0.02 for i, u in enumerate(uids)):
             bad("align", "row-mismatch", f"shift features {sh} != per-molecule references {[R[u]['shift'] for u in uids]} (planted {[DISP[u] for u in uids]})")
         newpos = al.molecules.pos
-        if any(np.abs(newpos[i] - (np.array(POS[u]) + np.array(R[u]["shift"]))).max() > 0.02 for i, u in enumerate(uids)):
-            bad("align", "position-row-mismatch", "aligned positions are not pos(uid) + shift(uid)")
-    lds = np.asarray(LB.construct_landscape(tm, max_shifts=1.0).compute())
+        if any(np.abs(newpos[i] - R[u]["newpos"]).max() > 0.02 for i, u in enumerate(uids)):
+            bad("align", "position-row-mismatch", f"aligned positions {np.round(newpos, 3).tolist()} are not those of the per-molecule references {[np.round(R[u]['newpos'], 3).tolist() for u in uids]}")
+        if any(abs(float(f["score"][i]) - R[u]["score_al"]) > 1e-4 for i, u in enumerate(uids)):
+            bad("align", "score-row-mismatch", f"alignment scores {[round(float(v), 5) for v in f['score']]} != per-molecule references {[round(R[u]['score_al'], 5) for u in uids]}")
+        if not np.allclose(al.molecules.quaternion(), LB.molecules.quaternion(), atol=1e-6) and not np.allclose(np.abs(np.sum(al.molecules.quaternion() * LB.molecules.quaternion(), axis=1)), 1.0, atol=1e-6):
+            bad("align", "orientation-row-mismatch", "translation-only alignment changed the orientation of some row")
+    lds = np.asarray(LB.construct_landscape(tm, max_shifts=1.0, tilt=TILT).compute())
     if lds.shape[0] != N:
         bad("landscape", "row-count", f"{lds.shape[0]} landscapes for {N} molecules")
     else:
         am = [tuple(int(v) - 1 for v in np.unravel_index(int(np.argmax(l)), l.shape)) for l in lds]
-        if am != [DISP[u] for u in uids]:
-            bad("landscape", "row-mismatch", f"landscape maxima at {am}, planted {[DISP[u] for u in uids]}")
+        if am != [R[u]["local_disp"] for u in uids]:
+            bad("landscape", "row-mismatch", f"landscape maxima at {am}, planted (in each molecule's frame) {[R[u]['local_disp'] for u in uids]}")
+        if any(l.shape != R[u]["landscape"].shape or np.abs(l - R[u]["landscape"]).max() > 1e-4 for l, u in zip(lds, uids)):
+            bad("landscape", "values-row-mismatch", f"landscape of some row differs from its molecule's single-molecule landscape by {max(float(np.abs(l - R[u]['landscape']).max()) for l, u in zip(lds, uids)):.3g}")
     if N >= 4:
-        res = LB.classify(tm, n_components=2, n_clusters=2, seed=0)
+        res = LB.classify(tm, n_components=2, n_clusters=2, seed=0, tilt=TILT)
         cl = res.loader
         if loader_uids(cl) != uids or len(cl.molecules.features["cluster"]) != N or not np.array_equal(cl.molecules.pos, LB.molecules.pos):
             bad("classify", "row-mismatch", f"classified loader holds uids {loader_uids(cl)}")
@@ -468,16 +499,16 @@ def run_case(case):
             except Exception as e:  # noqa
                 bad(f"group.{opname}", f"raised-{type(e).__name__}", str(e))
         GB = LB.groupby("g")
-        ga = GB.align(tm, max_shifts=1.2)
+        ga = GB.align(tm, max_shifts=1.2, tilt=TILT)
         rows = [(loader_uids(l), l.molecules.features) for _, l in ga]
         if sorted(itertools.chain(*[u for u, _ in rows])) != sorted(uids):
             bad("group.align", "molecules-lost", f"aligned groups hold {[u for u, _ in rows]} of {uids}")
         for u_, f in rows:
             for i, x in enumerate(u_):
                 sh = (float(f["align-dz"][i]), float(f["align-dy"][i]), float(f["align-dx"][i]))
-                if np.abs(np.array(sh) - np.array(R[x]["shift"])).max() > 0.02:
-                    bad("group.align", "row-mismatch", f"uid {x} got shift {sh}, reference {R[x]['shift']}")
-        ga2 = LB.groupby("g").head(2).align(tm, max_shifts=1.2)
+                if np.abs(np.array(sh) - np.array(R[x]["shift"])).max() > 0.02 or abs(float(f["score"][i]) - R[x]["score_al"]) > 1e-4:
+                    bad("group.align", "row-mismatch", f"uid {x} got shift {sh} score {float(f['score'][i]):.5f}, reference {R[x]['shift']} {R[x]['score_al']:.5f}")
+        ga2 = LB.groupby("g").head(2).align(tm, max_shifts=1.2, tilt=TILT)
         n2 = sum(l.count() for _, l in ga2)
         if n2 != sum(min(2, len(u)) for _, u in g1):
             bad("group.head.align", "molecules-lost", f"{n2} molecules after groupby().head(2).align(), expected {sum(min(2, len(u)) for _, u in g1)}")
